@@ -88,6 +88,13 @@ def cases(tier):
                 out.append(dict(spec=build(names, couplings(names)[1 if n >= 2 else 0], ["clone"] * n), dev=list(names) + ["clone"]))
                 out.append(dict(spec=build(names, [], ["clone"] + ["direct"] * (n - 1)), dev=list(names) + ["clone0"]))
                 out.append(dict(spec=build(names, [], ["clone_edit"] + ["clone"] * (n - 1)), dev=list(names) + ["clone_edit"]))
+    # histories across stages
+    for names in itertools.product(["A", "B", "G", "D"], repeat=2):
+        for via in (["direct", "direct"], ["clone", "clone"], ["direct", "clone"]):
+            out.append(dict(kind="hist", pattern="add_stage_after_transcription", spec=build(names, [], via), dev=list(names) + via))
+        if "G" in names:
+            for via in (["direct", "direct"], ["clone", "clone"]):
+                out.append(dict(kind="hist", pattern="set_value_then_edit", spec=build(names, [["continuity", 0]], via), dev=list(names) + via))
     from ..common import have_networkx
     if have_networkx():
         for n in (1, 2, 3):
@@ -164,7 +171,57 @@ def run_mixed(case):
     return dict(violations=vios, evaluations=3, traces=1 + len(meths), transitions=len(meths), outcome=explore.sha([meths, [v["sig"] for v in vios]]), nontrivial=True, sample=dict(methods=meths))
 
 
+def run_hist(case):
+    """histories across stages: a stage added (directly or from a template) after a first transcription; a sub-stage
+    parameter updated after a solve followed by a parent-level edit.  Next solve = fresh multi-stage OCP."""
+    import sys, copy
+    from .. import core
+    spec = case["spec"]; pat = case["pattern"]
+    tags = ["hist=%s" % pat] + ["stage=%s" % n for n in spec["names"]] + ["via=%s" % v for v in set(spec["via"])]
+    vios = []
+    opts = hist.SOLVER_OPTS["A"]
+    try:
+        hist.SPY.install()
+        final = copy.deepcopy(spec)
+        if pat == "add_stage_after_transcription":
+            m = multi.declare_multi(spec, upto=len(spec["stages"]) - 1, couple=False)
+            m.ocp.solver("ipopt", opts)
+            m.ocp.solve_limited()                      # first transcription and solve
+            multi.add_stage(m, spec["stages"][-1])     # one more stage on the live object
+            final["coupling"] = []
+        elif pat == "set_value_then_edit":
+            m = multi.declare_multi(spec, couple=False)
+            m.ocp.solver("ipopt", opts)
+            m.ocp.solve_limited()
+            for rr, sd in zip(m.reals, final["stages"]):
+                if rr.d["pg"] == "scalar":
+                    rr.st.set_value(rr.sym["pg"], 1.7)
+                    sd["d"].setdefault("pvals", {})["pg"] = 1.7
+            multi.add_coupling(m, spec["coupling"])    # a parent-level edit forces a new transcription
+        r = P.Real(); r.ocp = m.ocp
+        obs = hist.observe(r)
+        mf = multi.declare_multi(final)
+        mf.ocp.solver("ipopt", opts)
+        rf = P.Real(); rf.ocp = mf.ocp
+        fresh = hist.observe(rf)
+        if "error" in obs or "error" in fresh:
+            vios.append(dict(sig="exception:observe", tags=tags, detail=str(obs.get("error") or fresh.get("error"))))
+        else:
+            df = hist.obs_equal(obs, fresh)
+            if df:
+                vios.append(dict(sig="stale:" + "+".join(df), tags=tags, detail="next solve differs from a fresh multi-stage OCP with the final specification in %s (%d vs %d variables)" % (df, obs["nx"], fresh["nx"])))
+    except Exception as e:
+        fr = core.rockit_frame(sys.exc_info()[2])
+        if fr is None and not isinstance(e, (RuntimeError, AssertionError, AttributeError)):
+            raise
+        vios.append(dict(sig="exception:%s" % (fr or type(e).__name__), tags=tags, detail="%s: %s" % (type(e).__name__, str(e)[:200])))
+    return dict(violations=vios, evaluations=3, traces=2, transitions=len(spec["stages"]) + 2, outcome=explore.sha([case["pattern"], spec["names"], spec["via"], [v["sig"] for v in vios]]), nontrivial=True,
+                sample=dict(pattern=pat, names=spec["names"], via=spec["via"]))
+
+
 def run_case(case):
+    if case.get("kind") == "hist":
+        return run_hist(case)
     if case.get("kind") == "mixed":
         return run_mixed(case)
     spec = case["spec"]
@@ -197,6 +254,6 @@ def run_case(case):
 
 def describe(tier):
     return dict(
-        rule="(mixed methods incl. SplineMethod: every list of length <=3 over {Spline, MS, DC} containing Spline, on integrator-chain stages: multi-stage NLP = concatenation of the stages' own real NLPs + coupling rows) and every stage list of length 1..3 over a 7-stage alphabet (incl. a global parameter whose value each clone receives after cloning) (MS / DC / SS, uniform and geometric grids, N, M, free end time, both times free with a per-interval parameter, explicit time in rhs / integrand / constraints) x coupling pattern (none, state continuity, time+state continuity, shared master variable with master objective, master variable together with a master parameter, master objective on a stage, combination) x declaration pattern (direct; all cloned from templates declared with another horizon; first cloned; clone then edit one clone with siblings from the same template): real multi-stage NLP rows = disjoint union of the stages' reference rows (each read back through stage.sample) + coupling rows, objective = sum of stage objectives + master terms; template's declared state unchanged",
+        rule="(histories: a stage added directly / from a template after a first solve; a sub-stage parameter updated after a solve followed by a parent-level edit; next solve = fresh multi-stage OCP) (mixed methods incl. SplineMethod: every list of length <=3 over {Spline, MS, DC} containing Spline, on integrator-chain stages: multi-stage NLP = concatenation of the stages' own real NLPs + coupling rows) and every stage list of length 1..3 over a 7-stage alphabet (incl. a global parameter whose value each clone receives after cloning) (MS / DC / SS, uniform and geometric grids, N, M, free end time, both times free with a per-interval parameter, explicit time in rhs / integrand / constraints) x coupling pattern (none, state continuity, time+state continuity, shared master variable with master objective, master variable together with a master parameter, master objective on a stage, combination) x declaration pattern (direct; all cloned from templates declared with another horizon; first cloned; clone then edit one clone with siblings from the same template): real multi-stage NLP rows = disjoint union of the stages' reference rows (each read back through stage.sample) + coupling rows, objective = sum of stage objectives + master terms; template's declared state unchanged",
         bound="lists of length <=3%s" % ("" if tier == "thorough" else " (length 3 restricted)"),
         assumptions=["CasADi Function evaluation and Opti bookkeeping are trusted", "generic-point alphabet", "stage.sample is the labelling of a stage's variables"])
